@@ -308,8 +308,11 @@ func (p *c10) Run(w *lib.Worker, idx int, r *lib.Rand) lib.Case {
 	}
 	for i, cont := range []bool{false, true} {
 		if twin != nil {
-			_ = p.session.Validate(twin, sut.SpecOpts{Continue: cont, Strict: true}) // the twin first, with the same validator object
-			c.Evals++
+			// first the twin, then a copy of this very document with other content under the same names, with the
+			// same validator object
+			_ = p.session.Validate(twin, sut.SpecOpts{Continue: cont, Strict: true})
+			_ = p.session.Validate(gen.JSON(gen.TwinOf(r.Fork(), tree)), sut.SpecOpts{Continue: cont, Strict: true})
+			c.Evals += 2
 		}
 		ro := p.session.Validate(text, sut.SpecOpts{Continue: cont, Strict: true})
 		c.Evals++
